@@ -578,6 +578,23 @@ class TermEval:
         self._cache: dict = {}
         self._ids = itertools.count(1)
         self._site_targets: dict = {}
+        self._stored_attrs = None
+
+    def stored_attr_names(self) -> set:
+        """Names that are the target of an attribute store (`x.name = ...`, augmented, annotated, deleted, or set through
+        setattr with a constant name) anywhere in the package."""
+        if self._stored_attrs is None:
+            names = set()
+            for m in self.ix.modules.values():
+                for n in ast.walk(m.tree):
+                    if isinstance(n, ast.Attribute) and isinstance(n.ctx, (ast.Store, ast.Del)):
+                        names.add(n.attr)
+                    elif isinstance(n, ast.Call) and isinstance(n.func, ast.Name) and n.func.id == "setattr" and \
+                            len(n.args) >= 2 and isinstance(n.args[1], ast.Constant) and \
+                            isinstance(n.args[1].value, str):
+                        names.add(n.args[1].value)
+            self._stored_attrs = names
+        return self._stored_attrs
 
     def site_targets(self, func: FuncInfo, node) -> list:
         if self.cg is None:
@@ -1148,15 +1165,17 @@ class _FuncEval:
                 ent = None
             if ent is not None and ent[0] in ("module", "external"):
                 return ("global", f"{b[1]}.{e.attr}")
-        nm = e.attr.lstrip("_")
-        if nm and nm.isupper() and self.func.cls is not None and self.func.param_names and \
-                b == ("param", self.func.param_names[0]) and self.func.kind != "staticmethod":
-            # self.TABLE / cls.TABLE: a class-level constant (defined once along the hierarchy) is its value
+        if self.func.cls is not None and self.func.param_names and b == ("param", self.func.param_names[0]) and \
+                self.func.kind != "staticmethod" and e.attr not in self.te.stored_attr_names():
+            # self.table / cls.table: a class-level constant - an immutable literal defined in one class only and never
+            # assigned through an object anywhere in the package - is its value
             owners = [c for c in self.ix.classes.values() if e.attr in c.class_assigns or e.attr in c.late_assigns]
             ca = self.func.cls.lookup_class_attr(e.attr)
-            if ca is not None and len(owners) == 1 and e.attr not in self.func.cls.late_assigns:
+            if ca is not None and len(owners) == 1 and not owners[0].late_assigns.get(e.attr):
                 try:
-                    return _from_python(ast.literal_eval(ca[0]))
+                    v = ast.literal_eval(ca[0])
+                    if isinstance(v, (tuple, frozenset, str, bytes, int, float)) and not isinstance(v, bool):
+                        return _from_python(v)
                 except (ValueError, SyntaxError, TypeError):
                     pass
         t = ("attr", b, e.attr)
@@ -1323,6 +1342,12 @@ class _FuncEval:
         args = tuple(self.ev(a, p) for a in e.args)
         kwargs = tuple((k.arg, self.ev(k.value, p)) if k.arg is not None else (None, ("dstar", self.ev(k.value, p)))
                        for k in e.keywords)
+        if len(args) == 2 and not kwargs and fn[0] == "global" and fn[1].split(".")[-1] == "cast":
+            try:
+                if self.ix._is_typing_cast(e, self.scope):
+                    return args[1]   # typing.cast(T, x) is x
+            except Exception:  # noqa: BLE001
+                pass
         if fn == ("global", "getattr") and len(args) == 2 and not kwargs and args[1][0] == "const" \
                 and isinstance(args[1][1], str):
             return ("attr", args[0], args[1][1])  # getattr(x, 'name') is x.name
@@ -1861,6 +1886,27 @@ def generator_sources(te: "TermEval", summ: Summary, t, depth: int = 2) -> list:
             sub.precise = {substitute(k, amap) for k in gs.precise}
             out.extend(generator_sources(te, sub, v, depth - 1))
     return out
+
+
+def bound_arg(te: "TermEval", summ: Summary, c, name: str):
+    """What the callee's parameter `name` receives in call term `c`, whether passed by position or by keyword (the
+    callee must be resolved by type; otherwise only an explicit keyword counts).  None when it is not passed."""
+    if c[0] != "call":
+        return None
+    tg = summ.calls.get(c, ()) if c in summ.precise else ()
+    if len(tg) == 1:
+        g = tg[0]
+        a = g.node.args
+        pos = [x.arg for x in a.posonlyargs + a.args]
+        if g.parent is None and g.cls is not None and g.kind != "staticmethod" and pos:
+            pos = pos[1:]
+        for k, v in c[3]:
+            if k == name:
+                return v
+        if name in pos and pos.index(name) < len(c[2]) and not any(x[0] == "star" for x in c[2]):
+            return c[2][pos.index(name)]
+        return None
+    return call_arg(c, kw=name)
 
 
 def ctor_calls(summ: Summary, cls) -> list:
